@@ -61,8 +61,8 @@ def strategy(tier):
     )
 
 
-def _check(lines, style):
-    f, c, cla = vsgapi.parse(lines, style)
+def _check(lines, style, conf=None):
+    f, c, cla = vsgapi.parse(lines, style, [conf] if conf else None)
     rl = vsgapi.make_rules(f, c)
     rl.check_rules(bAllPhases=True)
     ln = []
@@ -166,12 +166,25 @@ def run_case(case, tier):
     else:
         rnd = random.Random(case["tseed"])
         tags = gen_tags(rnd, len(lines), rules_with, _ALLRULES[style])
-    concrete = {"text": new, "style": style, "tags": tags}
+    # a configuration that touches how violations are built (user_error_message) or which rules run, same for both twins
+    if "conf" in case:
+        conf = case["conf"]
+    else:
+        crnd = random.Random(case.get("tseed", 0) + 17)
+        conf = None
+        r = crnd.random()
+        if r < 0.35 and rules_with:
+            conf = {"rule": {rid: {"user_error_message": "see the project guideline"} for rid in crnd.sample(rules_with, k=min(len(rules_with), crnd.randint(1, 4)))}}
+        elif r < 0.45:
+            conf = {"rule": {"global": {"user_error_message": "guideline 4.2"}}}
+    concrete = {"text": new, "style": style, "tags": tags, "conf": conf}
+    if conf:
+        lab["with_user_error_message"] = 1
     tagged, ev = tagmodel.build(lines, tags, "vsg")
     neutral, _ = tagmodel.build(lines, tags, "xsg")
     try:
-        vt, _ = _check(tagged, style)
-        vn, _ = _check(neutral, style)
+        vt, _ = _check(tagged, style, conf)
+        vn, _ = _check(neutral, style, conf)
     except common.exceptions.ClassifyError:
         lab["tagged_rejected_by_vsg"] = 1
         res["failures"].append({"sig": {"kind": "tagged_variant_rejected"}, "detail": {}, "case": concrete})
